@@ -587,6 +587,9 @@ Alphabets == [
     cond   |-> [un |-> <<"Not">>, bin |-> <<"And", "Or">>, ter |-> <<"IfExp">>, consts |-> <<>>, names |-> Names3],
     \* generator shells (x, y: loop variables)
     gen    |-> [un |-> <<"Not">>, bin |-> <<"And", "Or", "Eq">>, ter |-> <<"IfExp">>, consts |-> <<>>, names |-> GenNames],
+    \* one binary operator of every precedence level, unary operators, conditional expression (C04 thorough, depth 3)
+    prec   |-> [un |-> <<"Not", "USub">>, bin |-> <<"Or", "And", "Lt", "BitOr", "BitXor", "BitAnd", "LShift", "Sub", "FloorDiv", "Pow">>,
+                ter |-> <<"IfExp">>, consts |-> <<>>, names |-> Names3],
     \* every operator kind
     wide   |-> [un |-> Un1All, bin |-> Bin2All, ter |-> Ter3All, consts |-> <<>>, names |-> Names3],
     widec  |-> [un |-> Un1All, bin |-> Bin2All, ter |-> Ter3All, consts |-> <<C(I(2)), C(Str2("a", "b")), C(None)>>, names |-> Names3]
